@@ -622,8 +622,38 @@ def _check_defaults(rng, tier, v2):
                       "4 list / 3 dict in-place operations to its own parameters" % (rec.n, len(_LISTS), len(_DICTS)))
 
 
+# ---------------------------------------------------------------------------------------------
+# (5) activate: every activation binds its own arguments (explicit / named / omitted -> default), in every order
+# ---------------------------------------------------------------------------------------------
+def _check_activate(rng, tier, v2):
+    import itertools
+    rec = _Rec("flow call: parameter binding of activated flows (_get_reference_activated_flow_instance / create_flow_instance)", SM,
+               "an activation with an omitted argument runs with the declared default, also when the same flow is already activated "
+               "with another value for that parameter (and vice versa); every activation answers exactly the events of its own value")
+    defaults = [1, "d", None]
+    explicit = [5, "x", 0]
+    forms = {"positional": lambda v: "activate tracker %s" % _lit(v), "named": lambda v: "activate tracker(level=%s)" % _lit(v),
+             "omitted": lambda v: "activate tracker"}
+    for dflt in defaults:
+        for ev in explicit:
+            if _same(ev, dflt):
+                continue
+            for order in itertools.permutations(["positional", "named", "omitted"], 2):
+                if "omitted" not in order:
+                    continue
+                lines = [forms[f](ev) for f in order]
+                src = ("flow tracker $level=%s\n  match Query(level=$level)\n  %s\n\nflow main\n  %s\n  match Never()\n"
+                       % (_lit(dflt), _probe("reply", ["level"]), "\n  ".join(lines)))
+                events = [{"type": "Query", "level": dflt}, {"type": "Query", "level": ev}, {"type": "Query", "level": "nobody"}]
+                want = [{}, {"reply": [[dflt]]}, {"reply": [[ev]]}, {}]
+                rec.check(v2, src, events, want)
+    return rec.record("%d programs: a one-parameter flow (default in {1, 'd', None}) activated twice in one parent - once with an explicit value "
+                      "in {5, 'x', 0} (positional or named) and once with the argument omitted, in both orders; three query events" % rec.n)
+
+
 def native_checks(rng, tier):
     from native import v2
+    yield _check_activate(rng, tier, v2)
     yield _check_binding(rng, tier, v2)
     yield _check_returns(rng, tier, v2)
     yield _check_privacy(rng, tier, v2)
